@@ -106,6 +106,10 @@ func (s *snapshots) applyRetain() error {
 // snapshot ----------------------------------------------------
 
 func (s *snapshots) open() (*snapshot, error) {
+	// note: locked for the whole open, so that applyRetain cannot
+	// remove the snapshot, before it is marked as used
+	s.usedMu.Lock()
+	defer s.usedMu.Unlock()
 	meta, err := s.meta()
 	if err != nil {
 		return nil, err
